@@ -521,50 +521,109 @@ func c19Window(t *testing.T, env *c19Env, tier string) ([]report.Viol, int) {
 	conn := actions.VerifNewPushConn(pusher)
 	starts := []int{1, 2, 5, 10, 11, 50, 101, 500, 989, 990, 995, 999, 1000}
 	ctx := context.Background()
+	sameIDs := func(a []uuid.UUID, b []uuid.UUID) bool {
+		if len(a) != len(b) {
+			return false
+		}
+		m := map[uuid.UUID]bool{}
+		for _, x := range a {
+			m[x] = true
+		}
+		for _, x := range b {
+			if !m[x] {
+				return false
+			}
+		}
+		return true
+	}
 	for _, start := range starts {
 		for _, kind := range []string{"fast", "slow", "nack"} {
 			for n := 1; n <= conn.QueueCap(); n++ {
-				conn.SetWindow(start)
-				for i := 0; i < n; i++ {
-					id := uuid.New()
-					switch kind {
-					case "fast":
-						conn.Fast(id)
-					case "slow":
-						conn.Slow(id)
-					case "nack":
-						conn.Nack(id)
+				for _, withOthers := range []bool{false, true} {
+					conn.SetWindow(start)
+					conn.Flush()
+					sets := map[string][]uuid.UUID{}
+					push := func(k string) {
+						id := uuid.New()
+						sets[k] = append(sets[k], id)
+						switch k {
+						case "fast":
+							conn.Fast(id)
+						case "slow":
+							conn.Slow(id)
+						case "nack":
+							conn.Nack(id)
+						}
 					}
-				}
-				req, err := conn.Receive(ctx)
-				states++
-				if err != nil {
-					viols = append(viols, report.Viol{Property: "C19", Check: "C19/window", Rule: "receive-failed", Text: err.Error(), Trace: []string{fmt.Sprint(start), kind, fmt.Sprint(n)}})
-					continue
-				}
-				want := start
-				switch kind {
-				case "fast":
-					want = start + n
-				case "slow":
-					want = start - n
-				case "nack":
-					want = start - 10*n
-				}
-				if want > 1000 {
-					want = 1000
-				}
-				if want < 1 {
-					want = 1
-				}
-				got := conn.Window()
-				got2 := got
-				if req.FlowControl != nil {
-					got2 = req.FlowControl.MaxMessages
-				}
-				nIDs := len(req.Ack) + len(req.Nack)
-				if got != want || got2 != want || got < 1 || got > 1000 || nIDs != n || (kind == "nack") != (len(req.Nack) > 0) {
-					viols = append(viols, report.Viol{Property: "C19", Check: "C19/window", Rule: "window-step", Text: fmt.Sprintf("window %d, %d %s answers: new window %d (published %d), want %d; %d ids forwarded (acks %d, nacks %d)", start, n, kind, got, got2, want, nIDs, len(req.Ack), len(req.Nack)), Trace: []string{fmt.Sprint(start), kind, fmt.Sprint(n)}})
+					for i := 0; i < n; i++ {
+						push(kind)
+					}
+					if withOthers {
+						// one answer of each other kind is waiting too; whichever
+						// queue Receive serves, the others must stay untouched
+						for _, k := range []string{"fast", "slow", "nack"} {
+							if k != kind {
+								push(k)
+							}
+						}
+					}
+					req, err := conn.Receive(ctx)
+					states++
+					trace := []string{fmt.Sprint(start), kind, fmt.Sprint(n), fmt.Sprint(withOthers)}
+					if err != nil {
+						viols = append(viols, report.Viol{Property: "C19", Check: "C19/window", Rule: "receive-failed", Text: err.Error(), Trace: trace})
+						continue
+					}
+					// which queue was served?
+					served := ""
+					for _, k := range []string{"fast", "slow", "nack"} {
+						fw := req.Ack
+						if k == "nack" {
+							fw = req.Nack
+						}
+						other := req.Nack
+						if k == "nack" {
+							other = req.Ack
+						}
+						if len(sets[k]) > 0 && sameIDs(fw, sets[k]) && len(other) == 0 {
+							served = k
+						}
+					}
+					qf, qs, qn := conn.QueueLens()
+					if served == "" {
+						viols = append(viols, report.Viol{Property: "C19", Check: "C19/window", Rule: "answer-routing", Text: fmt.Sprintf("window %d, waiting answers fast=%d slow=%d failed=%d: Receive forwarded %d acks and %d nacks, which is not exactly the ids of one kind of answer", start, len(sets["fast"]), len(sets["slow"]), len(sets["nack"]), len(req.Ack), len(req.Nack)), Trace: trace})
+						continue
+					}
+					wantLeft := map[string]int{"fast": len(sets["fast"]), "slow": len(sets["slow"]), "nack": len(sets["nack"])}
+					wantLeft[served] = 0
+					if qf != wantLeft["fast"] || qs != wantLeft["slow"] || qn != wantLeft["nack"] {
+						viols = append(viols, report.Viol{Property: "C19", Check: "C19/window", Rule: "answer-routing", Text: fmt.Sprintf("window %d: after serving the %s answers the queues hold fast=%d slow=%d failed=%d, want %v", start, served, qf, qs, qn, wantLeft), Trace: trace})
+						continue
+					}
+					k := len(sets[served])
+					want := start
+					switch served {
+					case "fast":
+						want = start + k
+					case "slow":
+						want = start - k
+					case "nack":
+						want = start - 10*k
+					}
+					if want > 1000 {
+						want = 1000
+					}
+					if want < 1 {
+						want = 1
+					}
+					got := conn.Window()
+					got2 := got
+					if req.FlowControl != nil {
+						got2 = req.FlowControl.MaxMessages
+					}
+					if got != want || got2 != want || got < 1 || got > 1000 {
+						viols = append(viols, report.Viol{Property: "C19", Check: "C19/window", Rule: "window-step", Text: fmt.Sprintf("window %d, %d %s answers: new window %d (published %d), want %d", start, k, served, got, got2, want), Trace: trace})
+					}
 				}
 			}
 		}
